@@ -78,9 +78,12 @@ func goMapGetOwnProperty(obj *object, name string) *property {
 
 	// Other methods
 	if method := obj.value.(*goMapObject).value.MethodByName(name); method.IsValid() {
+		// Mode 0o111 like an entry: a write to this name is a store into the map
+		// (goMapDefineOwnProperty accepts only that mode; with 0o110 the
+		// assignment m.Method = v was dropped silently).
 		return &property{
 			value: obj.runtime.toValue(method.Interface()),
-			mode:  0o110,
+			mode:  0o111,
 		}
 	}
 
